@@ -13,6 +13,7 @@ import (
 	"strings"
 
 	remoteexecution "github.com/bazelbuild/remote-apis/build/bazel/remote/execution/v2"
+	"github.com/buildbarn/bb-storage/pkg/blobstore"
 	"github.com/buildbarn/bb-storage/pkg/blobstore/completenesschecking"
 	"google.golang.org/grpc/codes"
 	"google.golang.org/grpc/status"
@@ -31,6 +32,10 @@ type runCfg struct {
 	path    int // 0 Get+ToByteSlice, 1 Get+ToProto, 2 GetFromComposite(identity slicer)+ToByteSlice
 	label   string
 	flaky   bool // the CAS changes during the call: only report-based clauses apply
+	// ba, when set, is a decorator instance (built with batch, maxMsg, maxTree)
+	// shared by several Gets of a case: "during that call" must not be
+	// satisfied by what an earlier call learnt.
+	ba blobstore.BlobAccess
 }
 
 // expectation is what the reference derives from the AC bytes, the CAS
@@ -253,7 +258,12 @@ func (h harness) execute(w *world, cfg runCfg) outcome {
 	ctx := context.Background()
 	w.cas.reset()
 	acComposites := w.ac.composites
-	ba := completenesschecking.NewCompletenessCheckingBlobAccess(w.ac, w.cas, cfg.batch, cfg.maxMsg, cfg.maxTree)
+	ba := cfg.ba
+	if ba == nil {
+		ba = completenesschecking.NewCompletenessCheckingBlobAccess(w.ac, w.cas, cfg.batch, cfg.maxMsg, cfg.maxTree)
+	} else {
+		rw.Count("gets_on_reused_decorator", 1)
+	}
 	exp := evaluate(w, cfg)
 
 	var data []byte
